@@ -49,7 +49,8 @@ theorem filter_filter_comm {α} (p q : α → Bool) (l : List α) :
 /-- two states are equal when all their fields are -/
 theorem St_eq {a b : St} (ths : a.ths = b.ths) (atoms : a.atoms = b.atoms)
     (atomRel : a.atomRel = b.atomRel) (cells : a.cells = b.cells) (cellW : a.cellW = b.cellW)
-    (cellR : a.cellR = b.cellR) (mutex : a.mutex = b.mutex) (mutexRel : a.mutexRel = b.mutexRel)
+    (cellR : a.cellR = b.cellR) (cellOpen : a.cellOpen = b.cellOpen)
+    (cellWOpen : a.cellWOpen = b.cellWOpen) (mutex : a.mutex = b.mutex) (mutexRel : a.mutexRel = b.mutexRel)
     (rwWriter : a.rwWriter = b.rwWriter) (rwReaders : a.rwReaders = b.rwReaders)
     (rwRel : a.rwRel = b.rwRel) (cvQueue : a.cvQueue = b.cvQueue) (nFlag : a.nFlag = b.nFlag)
     (nSpurUsed : a.nSpurUsed = b.nSpurUsed) (nRel : a.nRel = b.nRel) (chan : a.chan = b.chan)
